@@ -54,6 +54,9 @@ def closed_handler(th, ex, st, args, kwargs):
         c = IntVal(ord(a.lit))
     elif a.kind == 'chars' and len(a.codes) == 1:
         c = a.codes[0]
+    elif a.kind in ('bool', 'int', 'none'):
+        ex.raise_if(st, BoolVal(True), 'TypeError')          # `x in '()oO'` needs a string on the left
+        return B(False)
     else:
         raise OutOfSubset('_closed(%s)' % a.kind)
     ex.use('callee contract:_closed(c) is False for ( ) o O, True for [ ] c C, ValueError otherwise (section _closed)')
